@@ -1,0 +1,73 @@
+//go:build verif
+
+// Contracts for package netflow5, checked by /verif/govc (comment-only file; it declares nothing).
+package netflow5
+
+//@ pred hdrAt(h PacketHeader, b []byte, p mathint) = h.Version == be16(b, p) && h.Count == be16(b, p+2)
+//@     && h.SysUpTimeMSecs == be32(b, p+4) && h.UNIXSecs == be32(b, p+8) && h.UNIXNSecs == be32(b, p+12)
+//@     && h.SeqNum == be32(b, p+16) && h.EngType == be8(b, p+20) && h.EngID == be8(b, p+21) && h.SmpInt == be16(b, p+22)
+
+//@ pred flowAt(f FlowRecord, b []byte, p mathint) = f.SrcAddr == be32(b, p) && f.DstAddr == be32(b, p+4) && f.NextHop == be32(b, p+8)
+//@     && f.Input == be16(b, p+12) && f.Output == be16(b, p+14) && f.PktCount == be32(b, p+16) && f.L3Octets == be32(b, p+20)
+//@     && f.StartTime == be32(b, p+24) && f.EndTime == be32(b, p+28) && f.SrcPort == be16(b, p+32) && f.DstPort == be16(b, p+34)
+//@     && f.Padding1 == be8(b, p+36) && f.TCPFlags == be8(b, p+37) && f.ProtType == be8(b, p+38) && f.Tos == be8(b, p+39)
+//@     && f.SrcAsNum == be16(b, p+40) && f.DstAsNum == be16(b, p+42) && f.SrcMask == be8(b, p+44) && f.DstMask == be8(b, p+45)
+//@     && f.Padding2 == be16(b, p+46)
+
+//@ spec validV5(b []byte) bool = len(b) >= 24 && be16(b, 0) == 5 && 1 <= be16(b, 2) && be16(b, 2) <= 30 && len(b) >= 24 + 48*be16(b, 2)
+
+//@ func (*PacketHeader).unmarshal
+//@   requires r != nil && inv(r)
+//@   ensures inv(r) && r.base == old(r.base) && r.count >= old(r.count)
+//@   ensures old(len(r.data)) >= 24 ==> err == nil && r.count == old(r.count) + 24 && hdrAt(h, r.base, old(r.count))
+//@   ensures old(len(r.data)) < 24 ==> err != nil
+//@   modifies h, r.data, r.count
+
+//@ func (*PacketHeader).validate
+//@   ensures err == nil <==> (h.Version == 5 && 1 <= h.Count && h.Count <= 30)
+
+//@ func (*FlowRecord).unmarshal
+//@   requires r != nil && inv(r)
+//@   ensures inv(r) && r.base == old(r.base) && r.count >= old(r.count)
+//@   ensures old(len(r.data)) >= 48 ==> err == nil && r.count == old(r.count) + 48 && flowAt(fr, r.base, old(r.count))
+//@   ensures old(len(r.data)) < 48 ==> err != nil
+//@   modifies fr, r.data, r.count
+
+//@ func NewDecoder
+//@   ensures result != nil && result.raddr == raddr && result.reader != nil && inv(result.reader)
+//@   ensures result.reader.base == b && result.reader.count == 0
+
+//@ func (*Decoder).decodeFlows
+//@   requires d.reader != nil && inv(d.reader) && msg != nil && 0 <= flowCount && flowCount <= 65535
+//@   ensures d.reader != nil && inv(d.reader) && d.reader.base == old(d.reader.base) && d.raddr == old(d.raddr)
+//@   ensures 48*flowCount <= old(len(d.reader.data)) ==> err == nil && d.reader.count == old(d.reader.count) + 48*flowCount
+//@   ensures 48*flowCount <= old(len(d.reader.data)) ==> len(msg.Flows) == old(len(msg.Flows)) + flowCount
+//@   ensures 48*flowCount <= old(len(d.reader.data)) ==> (forall k :: 0 <= k && k < flowCount ==> flowAt(msg.Flows[old(len(msg.Flows)) + k], d.reader.base, old(d.reader.count) + 48*k))
+//@   ensures 48*flowCount > old(len(d.reader.data)) ==> err != nil && msg.Flows == old(msg.Flows)
+//@   ensures msg.Header == old(msg.Header) && msg.AgentID == old(msg.AgentID)
+//@   modifies d.reader.data, d.reader.count, msg.Flows
+//@   loop 1
+//@     invariant d.reader != nil && inv(d.reader) && d.reader.base == old(d.reader.base) && msg != nil && d.raddr == old(d.raddr)
+//@     invariant msg.Header == old(msg.Header) && msg.AgentID == old(msg.AgentID)
+//@     invariant 0 <= flowIndex && flowIndex <= flowCount
+//@     invariant err != nil ==> msg.Flows == old(msg.Flows) && 48*flowCount > old(len(d.reader.data))
+//@     invariant err == nil ==> 48*flowCount <= old(len(d.reader.data)) && d.reader.count == old(d.reader.count) + 48*flowIndex
+//@     invariant err == nil ==> len(msg.Flows) == old(len(msg.Flows)) + flowIndex
+//@     invariant err == nil ==> (forall k :: 0 <= k && k < flowIndex ==> flowAt(msg.Flows[old(len(msg.Flows)) + k], d.reader.base, old(d.reader.count) + 48*k))
+//@     decreases flowCount - flowIndex
+
+//@ func (*Decoder).Decode
+//@   requires d.reader != nil && inv(d.reader) && d.reader.count == 0
+//@   ensures validV5(old(d.reader.base)) ==> result != nil && err == nil && hdrAt(result.Header, old(d.reader.base), 0)
+//@   ensures validV5(old(d.reader.base)) ==> len(result.Flows) == be16(old(d.reader.base), 2)
+//@   ensures validV5(old(d.reader.base)) ==> (forall k :: 0 <= k && k < be16(old(d.reader.base), 2) ==> flowAt(result.Flows[k], old(d.reader.base), 24 + 48*k))
+//@   ensures !validV5(old(d.reader.base)) ==> result == nil || len(result.Flows) == 0
+//@   modifies d.reader.data, d.reader.count
+//@   opt unreachable cover.ret.3   // the default branch of the type switch is dead: nonfatalError is an interface type every error implements
+
+//@ func combineErrors
+//@   requires forall i :: 0 <= i && i < len(errorSlice) ==> errorSlice[i] != nil
+//@   ensures len(errorSlice) == 0 ==> err == nil
+//@   ensures len(errorSlice) > 0 ==> err != nil
+//@   loop 1
+//@     invariant true
